@@ -20,7 +20,7 @@ def run(chk):
             if f['name'] == 'cacg_eigenvalues':
                 f['t']['data'] = [[x[0], x[1] + 1] for x in f['t']['data']]
         return r
-    core.binding_demo(chk, 'bind-domain', 'Trace_MM', 'Trace_MM.cfg', good, corrupt, 'cacg_eigenvalue_range', candidates=goods[1:])
+    core.binding_demo(chk, 'bind-domain', 'Trace_MM', 'Trace_MM.cfg', good, corrupt, 'cacg_eigenvalue_le_one', candidates=goods[1:])
     chk.assumptions = ['Cholesky factor of Gaussian covariances computed by NumPy in the driver and verified by TLC '
                        '(L L^T = Sigma, positive diagonal)', 'explicit exceptions are accepted for degenerate inputs']
 
